@@ -269,8 +269,9 @@ def step(ctx, im, marks, l, hist, n, cfg):
         if not resid <= (abs(eps) + 1e-8) * max(1.0, scale):
             # classification only: the variational sweep starts from psi itself
             orth = abs(np.vdot(v, w)) <= 1e-12 * max(1.0, np.sqrt(scale))
+            guess = 'product-state-guess' if len(l['state']) == 1 else 'entangled-guess'
             viol(ctx, l, 'applied-state', hist, n, cfg, residual=resid, reported_eps=eps, norm2=scale,
-                 cause='initial-guess-orthogonal-to-target' if orth else 'other')
+                 cause=guess + ('-orthogonal-to-target' if orth else ''))
             return False
         return True
     if op == 'make_U_I':
